@@ -20,9 +20,11 @@ def u1_unpack(src, nbatches):
     FM.check_delivery(src, log, READ_UNCOMMITTED, res)
 
 
-def s1_program(src, shape, program_len, max_faults):
+def s1_program(src, shape, program_len, max_faults, race=False):
     iso = src.choice("isolation", 2)
     cfg = {"isolation": iso, "policy": "earliest"}
+    if race:
+        cfg["race_ops"] = ("race_seek", "race_pause", "race_oor_seek")
     ends = {k: max((d[2].get("last", d[1][-1] if d[1] else d[2].get("base", 0)) if len(d) > 2 and isinstance(d[1], list)
                     else (d[1][-1] if isinstance(d[1], list) else d[1])) for d in v) + 1 for k, v in conssim.SHAPES.items()}
     log_end = ends[shape]
@@ -55,10 +57,12 @@ def harnesses(tier):
         confs = [(s, 2, 0) for s in shapes] + [("v2_compaction", 2, 1), ("v1_mixed", 2, 1)]
     else:
         confs = [(s, 3, 1) for s in shapes] + [("txn_same_pid", 3, 1), ("v2_control", 4, 1), ("v1_mixed", 3, 2)]
-    for shape, plen, mf in confs:
+    confs = [c + (False,) for c in confs] + ([("v2_plain", 1, 0, True), ("v1_mixed", 1, 0, True)] if q else
+                                            [("v2_plain", 2, 1, True), ("v1_mixed", 2, 0, True), ("txn_mixed", 2, 0, True)])
+    for shape, plen, mf, race in confs:
         hs.append(Harness(
-            name=f"S1_program_{shape}_{plen}calls_{mf}faults", fn=s1_program,
-            params={"shape": shape, "program_len": plen, "max_faults": mf},
+            name=f"S1_program_{shape}_{plen}calls_{mf}faults{'_race' if race else ''}", fn=s1_program,
+            params={"shape": shape, "program_len": plen, "max_faults": mf, "race": race},
             functions=[AIOKafkaConsumer.getone, AIOKafkaConsumer.getmany, AIOKafkaConsumer.seek, AIOKafkaConsumer.position,
                        AIOKafkaConsumer.pause, AIOKafkaConsumer.resume, Fetcher._fetch_requests_routine,
                        Fetcher._proc_fetch_request, Fetcher._get_actions_per_node, Fetcher.next_record,
